@@ -20,5 +20,7 @@ pub mod tour;
 mod train_formation;
 pub mod transition;
 mod vehicle;
+#[cfg(rssched_verif)]
+pub mod verif;
 
 pub use schedule::Schedule;
